@@ -64,18 +64,22 @@ ASSUMPTIONS = [
     "are counted in the evidence",
     "sheared cells: elementary shears a_j -> a_j + s*a_i of the lattice alphabet, all 6 ordered axis pairs, s in {3, 5} "
     "(thorough adds s in {-4, 7}); meshes (1,1,1) (2,2,2) (3,3,3) (2,3,4) (1,2,3) (1,1,4) (5,1,1) (4,4,1) "
-    "(thorough adds (4,4,4) (3,5,2)); in quick s=5 is not combined with the meshes (5,1,1) and (4,4,1), and in thorough "
-    "|s|>=5 is not combined with (5,1,1) (4,4,1) (4,4,4) (3,5,2), because the code's second, enlarged search box makes "
-    "these cases cost seconds each; no compound shears, no |s| > 7",
+    "(thorough adds (4,4,4) (3,5,2)); in quick s=5 is combined only with the meshes (2,2,2) (3,3,3) (2,3,4) (1,2,3) (on the "
+    "meshes with N_i=1 s=3 already exceeds the default box 2*N_i), and in thorough |s|>=5 is not combined with (5,1,1) "
+    "(4,4,1) (4,4,4) (3,5,2), because the code's second, enlarged search box makes these cases cost seconds each; no "
+    "compound shears, no |s| > 7",
     "sheared cells: the search refuses (RuntimeError) much more often than for the compact cell of the same lattice, "
-    "because a refusal inside the default box is not followed by a larger box; refusals are counted "
-    "(no_solution_sheared, sheared_refusals_where_compact_cell_succeeds), not judged; the dependence of the Cartesian "
-    "b-vector set on the cell description is counted (cell_dependent_choice), not judged",
+    "because a refusal inside the default box is not followed by a larger box; refusals (both messages, 'Could not find a "
+    "complete set' and 'Could not find a set of complete shells') are counted (coverage.sheared.no_solution, "
+    ".refusals_where_compact_cell_succeeds), not judged; the dependence of the Cartesian b-vector set and weights on "
+    "the cell description (compared when both cells generate the same mesh lattice) is counted "
+    "(coverage.sheared.cell_dependent_choice), not judged",
     "nnkp: the files contain real_lattice with 17 significant digits (exact round trip; a 7-decimal lattice would split "
     "symmetric shells by ~1e-7, which is outside the statement), k-points i/n with 8 decimals, the b-vector set that "
     "from_kpoints chose for the same lattice and mesh, every k-point listed; default kmesh_tol/bk_complete_tol of "
     "from_nnkp, lattice taken from the file, kptirr=None; meshes with NK<=32 in quick (no 4x4x4); the order of "
-    "bk_grid relative to the file is not judged (not in the statement); only k-point 1 of the file determines the "
+    "bk_grid relative to the file is not judged (not in the statement); weights of from_nnkp and from_kpoints are "
+    "compared per vector to 1e-9 of the largest weight (the weights of a fixed set of whole shells are unique); only k-point 1 of the file determines the "
     "b-vector order inside the code, the per-k ordering therefore only tests that the other lists are not trusted "
     "blindly",
 ]
@@ -115,6 +119,7 @@ KINDS = ("id", "rev", "fortran", "transp", "irr", "digits8")
 
 # ---------------------------------------------------------------- sheared / unreduced descriptions of the lattices
 EXPENSIVE_SHEAR_MESHES = ((5, 1, 1), (4, 4, 1), (4, 4, 4), (3, 5, 2))
+SHEAR5_MESHES_QUICK = ((2, 2, 2), (3, 3, 3), (2, 3, 4), (1, 2, 3))
 
 
 def shear_meshes(tier):
@@ -127,7 +132,7 @@ def shear_meshes(tier):
 def shears(tier, mesh):
     """tags 'a<j>+<s>a<i>' :  a_j -> a_j + s*a_i  (unimodular, the lattice is unchanged)"""
     svals = [3, 5] if tier == "quick" else [3, 5, -4, 7]
-    if tuple(mesh) in EXPENSIVE_SHEAR_MESHES:
+    if tuple(mesh) in EXPENSIVE_SHEAR_MESHES or (tier == "quick" and tuple(mesh) not in SHEAR5_MESHES_QUICK):
         svals = [s for s in svals if abs(s) < 5]
     for s in svals:
         for i, j in itertools.permutations(range(3), 2):
